@@ -367,6 +367,9 @@ fn main() {
             .unwrap_or_default();
         // First frame inside rsass (function path without the hash).
         let bt = std::backtrace::Backtrace::force_capture().to_string();
+        if std::env::var_os("VERIF_BT").is_some() {
+            eprintln!("{bt}");
+        }
         let frame = bt
             .lines()
             .filter_map(|l| l.trim().split_once(": ").map(|x| x.1))
